@@ -4,6 +4,7 @@ import (
 	"fmt"
 	"go/token"
 	"go/types"
+	"hash/fnv"
 	"os"
 	"sort"
 	"strings"
@@ -15,32 +16,34 @@ import (
 )
 
 type World struct {
-	repo        string
-	fset        *token.FileSet
-	prog        *ssa.Program
-	pkgs        map[string]*ssa.Package
-	contracts   []*Contract
-	byFn        map[*ssa.Function]*Contract
-	specFns     map[string]*SpecFn
-	typeTags    map[string]int
-	tagTypes    map[int]types.Type
-	models      map[string]Model
-	modelWrites map[string][]string
-	preHooks    map[string]func(*Frame, *State)
-	genericPre  []func(*Frame, *State, *Contract)
-	genericPost []func(*Frame, *State, *Contract, *Scope)
-	caseHooks   []func(*Frame, *State, *Contract) []namedCase
+	repo          string
+	fset          *token.FileSet
+	prog          *ssa.Program
+	pkgs          map[string]*ssa.Package
+	contracts     []*Contract
+	byFn          map[*ssa.Function]*Contract
+	specFns       map[string]*SpecFn
+	typeTags      map[string]int
+	tagTypes      map[int]types.Type
+	models        map[string]Model
+	modelWrites   map[string][]string
+	preHooks      map[string]func(*Frame, *State)
+	genericPre    []func(*Frame, *State, *Contract)
+	genericPost   []func(*Frame, *State, *Contract, *Scope)
+	caseHooks     []func(*Frame, *State, *Contract) []namedCase
 	caseFactHooks []func(*Frame, *State, *Contract, string)
-	stats       struct{ unrolled, cut, feasQueries, pruned int }
-	inlined     map[string]bool
-	assumedSet  map[string]bool
-	ctUses      map[string]bool
-	globalIDs   map[*ssa.Global]int
-	loopCache   map[*ssa.Function]*LoopInfo
-	mu          sync.Mutex
-	loadSecs    float64
-	isaTable    map[string]*IsaEntry
-	replayHooks map[string]func(*World, checkOpts, *Obligation) *ReplayResult
+	knownCases  map[string][]string // function -> input classes of its known findings
+	knownLane   map[string][]string // function -> per-lane input classes (vector handlers)
+	stats         struct{ unrolled, cut, feasQueries, pruned int }
+	inlined       map[string]bool
+	assumedSet    map[string]bool
+	ctUses        map[string]bool
+	globalIDs     map[*ssa.Global]int
+	loopCache     map[*ssa.Function]*LoopInfo
+	mu            sync.Mutex
+	loadSecs      float64
+	isaTable      map[string]*IsaEntry
+	replayHooks   map[string]func(*World, checkOpts, *Obligation) *ReplayResult
 }
 
 func NewWorld(repo string) *World {
@@ -54,16 +57,70 @@ func NewWorld(repo string) *World {
 	return w
 }
 
+func stableHash(s string, mod int) int {
+	h := fnv.New32a()
+	h.Write([]byte(s))
+	return int(h.Sum32()%uint32(mod)) + 1
+}
+
+// tagOf: a stable (run-independent) identifier of a dynamic type.
+func (w *World) tagOf(t types.Type) int {
+	w.mu.Lock()
+	defer w.mu.Unlock()
+	key := types.TypeString(t, nil)
+	if id, ok := w.typeTags[key]; ok {
+		return id
+	}
+	id := stableHash(key, 1<<30)
+	for {
+		if _, used := w.tagTypes[id]; !used {
+			break
+		}
+		id++
+	}
+	w.typeTags[key] = id
+	w.tagTypes[id] = t
+	return id
+}
+
+func (w *World) tagType(id int) types.Type {
+	w.mu.Lock()
+	defer w.mu.Unlock()
+	return w.tagTypes[id]
+}
+
+func (w *World) tagIDs() []int {
+	w.mu.Lock()
+	defer w.mu.Unlock()
+	var ids []int
+	for id := range w.tagTypes {
+		ids = append(ids, id)
+	}
+	sort.Ints(ids)
+	return ids
+}
+
 func (w *World) globalID(g *ssa.Global) int {
+	w.mu.Lock()
+	defer w.mu.Unlock()
 	if id, ok := w.globalIDs[g]; ok {
 		return id
 	}
-	id := len(w.globalIDs) + 1
+	used := map[int]bool{}
+	for _, v := range w.globalIDs {
+		used[v] = true
+	}
+	id := stableHash(g.String(), 900000)
+	for used[id] {
+		id++
+	}
 	w.globalIDs[g] = id
 	return id
 }
 
 func (w *World) loopInfo(fn *ssa.Function) *LoopInfo {
+	w.mu.Lock()
+	defer w.mu.Unlock()
 	if li, ok := w.loopCache[fn]; ok {
 		return li
 	}
@@ -72,9 +129,14 @@ func (w *World) loopInfo(fn *ssa.Function) *LoopInfo {
 	return li
 }
 
-func (w *World) noteInlined(k string)         { w.inlined[k] = true }
-func (w *World) noteAssumed(k string)         { w.assumedSet[k] = true }
-func (w *World) noteContractUse(c *Contract)  { w.ctUses[c.FullName()] = true }
+func (w *World) noteInlined(k string) { w.mu.Lock(); w.inlined[k] = true; w.mu.Unlock() }
+func (w *World) noteAssumed(k string) { w.mu.Lock(); w.assumedSet[k] = true; w.mu.Unlock() }
+func (w *World) noteContractUse(c *Contract) {
+	w.mu.Lock()
+	w.ctUses[c.FullName()] = true
+	w.mu.Unlock()
+}
+func (w *World) stat(f func()) { w.mu.Lock(); f(); w.mu.Unlock() }
 func (w *World) contractFor(fn *ssa.Function) *Contract {
 	if fn == nil {
 		return nil
